@@ -257,7 +257,7 @@ func runScheduleProperty(t *testing.T, id string, scenarios func(batch int) []Sc
 	claimed := vk.Pick(run, 1, 2)
 	run.Set("preemption_bound_claimed", claimed)
 	nslots := len(batches) * len(scenarios(batches[0]))
-	slot := vk.Pick(run, 10*time.Minute, 45*time.Minute) / time.Duration(nslots)
+	slot := vk.Pick(run, 16*time.Minute, 45*time.Minute) / time.Duration(nslots)
 	run.Set("time_slot_per_scenario_s", slot.Seconds())
 	var total int64
 	per := map[string]any{}
